@@ -486,7 +486,10 @@ func (m *Machine) exec(fr *frame, s ast.Stmt) (ctrl, Value, error) {
 				vals = append(vals, nil)
 			}
 		case *MapV:
-			return 0, nil, undecided(s.Pos(), "range over a map in a template helper (iteration order is unspecified)")
+			// insertion order; whether the loop is order-insensitive is G-DET's business
+			m.Notes = append(m.Notes, Note{Rule: "H-MAPRANGE", Key: "map-range@" + m.Prog.Pos(s.Pos()), Pos: s.Pos(), Msg: "range over a map during interpretation"})
+			keys = append(keys, x.Keys...)
+			vals = append(vals, x.Vals...)
 		default:
 			return 0, nil, undecided(s.Pos(), "range over %s", Show(x))
 		}
